@@ -42,6 +42,7 @@ type Config struct {
 	Models    map[string]*ssa.Function
 	UFs       map[string]UFCfg
 	GoPolicy  string           // inline | after | drop | error
+	CtxPolicy string           // never | nondet : behaviour of ctx.Done()
 	Params    map[string]int64 // vsParam values for this tier
 	Pinned    map[string]*big.Int
 	PinnedBytes map[string]string
@@ -85,6 +86,7 @@ type Report struct {
 	Branches       int
 	Forks          int
 	Merges         int
+	Workers        int
 	Steps          int64
 	Failures       []*Failure
 	Obligations    map[string]*Obligation
@@ -139,6 +141,7 @@ type frame struct {
 	panicking *goPanic
 	symIfs    map[ssa.Instruction]int
 	callSite  string
+	cur       ssa.Instruction
 }
 
 type deferred struct {
@@ -755,7 +758,17 @@ func (in *Interp) cover(id string) {
 func (in *Interp) raise(kind string, val Value) {
 	site := "?"
 	if len(in.frames) > 0 {
-		site = in.frames[len(in.frames)-1].fn.String()
+		fr := in.frames[len(in.frames)-1]
+		site = fr.fn.String()
+		// innermost frame with position information gives file:line
+		for i := len(in.frames) - 1; i >= 0; i-- {
+			f := in.frames[i]
+			if f.cur != nil && f.cur.Pos().IsValid() {
+				p := in.Prog.Fset.Position(f.cur.Pos())
+				site = fmt.Sprintf("%s (%s:%d)", fr.fn.String(), shortFile(p.Filename), p.Line)
+				break
+			}
+		}
 	}
 	panic(&goPanic{kind: kind, val: val, site: site, stack: in.stackTrace()})
 }
@@ -768,4 +781,14 @@ func (in *Interp) checkOK(ok *smt.Term, kind string) {
 	if !in.branch(ok) {
 		in.raise(kind, nil)
 	}
+}
+
+func shortFile(p string) string {
+	if i := strings.Index(p, "/repo/"); i >= 0 {
+		return p[i+len("/repo/"):]
+	}
+	if i := strings.Index(p, "/pkg/mod/"); i >= 0 {
+		return p[i+len("/pkg/mod/"):]
+	}
+	return p
 }
